@@ -2,6 +2,7 @@
 from __future__ import annotations
 
 import asyncio
+import gc
 import random
 import shutil
 import tempfile
@@ -36,17 +37,24 @@ def gen_cases(tier, seed):
         if i % 7 == 3:
             # the cross-talk shape: fail-fast ensemble with a slow and a failing member
             tree = ['Ens', True, [['T', 'A', 1, 0, {}], ['T', 'B', r.choice([1, 2]), 0, {}]]]
-        cases.append({'tree': tree, 'capacity': r.choice([1, 2, 4, 16, 64]), 'callers': r.choice([1, 2, 3, 4, 6]),
+        xtalk = i % 7 == 3
+        cases.append({'tree': tree, 'xtalk': xtalk, 'capacity': r.choice([1, 2, 4, 16, 64]), 'callers': r.choice([1, 2, 3, 4, 6]) if not xtalk else r.choice([1, 2]),
                       'per_caller': r.choice([10, 25, 60]) if not SH.has_process(tree) else r.choice([8, 20]),
-                      'advid': r.choice([None, 'lifo', 'lifo', 'fifo', 'random', 'fresh']),
+                      'advid': r.choice([None, 'lifo', 'lifo', 'fifo', 'random', 'fresh']) if not xtalk else r.choice(['lifo', 'lifo', 'random']),
                       'mode': 'async' if i % 4 == 1 else 'sync', 'fuzz': r.random() < 0.8, 'seed': r.randrange(1 << 30)})
     return cases
 
 
-def make_requests(rng, tree, client, n):
+def make_requests(rng, tree, client, n, xtalk=False):
     lv = SH.leaves(tree)
     reqs = []
     for s in range(n):
+        if xtalk:
+            # fail-fast ensemble: member A fails at once while member B is still busy with the same request;
+            # the next request follows immediately (its id may be the one just released)
+            plan = [('A', 'fail', None), ('B', 'sleep', rng.choice([0.002, 0.005]))] if s % 2 == 0 else []
+            reqs.append((('tok', client, s, tuple(plan)), 30))
+            continue
         plan = []
         r = rng.random()
         leaf = rng.choice(lv)
@@ -118,7 +126,7 @@ def run_sync(case, tree, servlet, viol, obs, shadow_box, fz):
     rng = random.Random(case['seed'])
     server = Server(servlet, capacity=case['capacity'])
     shadow_box.append(SH.install_ledger_shadow(server))
-    plans = [make_requests(rng, tree, c, case['per_caller']) for c in range(case['callers'])]
+    plans = [make_requests(rng, tree, c, case['per_caller'], case.get('xtalk')) for c in range(case['callers'])]
     lock = threading.Lock()
 
     def caller(c):
@@ -148,6 +156,9 @@ def run_sync(case, tree, servlet, viol, obs, shadow_box, fz):
                     y = e
                 with lock:
                     judge(tree, tok, dl, y, viol, obs, 'call')
+                if case.get('xtalk'):
+                    y = None
+                    gc.collect()  # a collection may run at any time: the failed future (in a traceback cycle) is released now
 
     with server:
         with fz:
@@ -163,7 +174,7 @@ def run_async(case, tree, servlet, viol, obs, shadow_box, fz):
     from mpservice.mpserver import AsyncServer
 
     rng = random.Random(case['seed'])
-    plans = [make_requests(rng, tree, c, case['per_caller']) for c in range(case['callers'])]
+    plans = [make_requests(rng, tree, c, case['per_caller'], case.get('xtalk')) for c in range(case['callers'])]
 
     async def main():
         server = AsyncServer(servlet, capacity=case['capacity'])
@@ -196,6 +207,9 @@ def run_async(case, tree, servlet, viol, obs, shadow_box, fz):
                     except Exception as e:  # noqa: BLE001
                         y = e
                     judge(tree, tok, dl, y, viol, obs, 'acall')
+                    if case.get('xtalk'):
+                        y = None
+                        gc.collect()
 
         async with server:
             with fz:
